@@ -183,4 +183,89 @@ theorem solve3_spec (a11 a12 a13 a21 a22 a23 a31 a32 a33 b1 b2 b3 x y z : K)
   subst hx hy hz
   refine ⟨?_, ?_, ?_⟩ <;> (field_simp; rw [hD]; ring)
 
+/-- angles `0, φ1, θ` positively oriented on the unit circle ⇒ `φ1` lies between `0` and `θ`. -/
+theorem between_of_orient (c s c1 s1 : K) (h : c ^ 2 + s ^ 2 = 1) (h1 : c1 ^ 2 + s1 ^ 2 = 1)
+    (ho : 0 < s1 * (1 - c) + s * (c1 - 1)) :
+    (0 ≤ s → 0 < s1 ∧ c < c1) ∧ (s < 0 → 0 ≤ s1 ∨ c1 < c) := by
+  have hc : c ≤ 1 := by nlinarith [sq_nonneg s]
+  have hc1 : c1 ≤ 1 := by nlinarith [sq_nonneg s1]
+  have hcm : -1 ≤ c := by nlinarith [sq_nonneg s]
+  have hc1m : -1 ≤ c1 := by nlinarith [sq_nonneg s1]
+  constructor
+  · intro hs
+    have hs1 : 0 < s1 := by
+      by_contra hneg
+      push Not at hneg
+      have : s1 * (1 - c) ≤ 0 := mul_nonpos_of_nonpos_of_nonneg hneg (by linarith)
+      have : s * (c1 - 1) ≤ 0 := mul_nonpos_of_nonneg_of_nonpos hs (by linarith)
+      linarith
+    refine ⟨hs1, ?_⟩
+    by_contra hle
+    push Not at hle
+    -- s1 (1-c) > s (1-c1) ≥ 0, square both sides
+    have hA : s * (1 - c1) < s1 * (1 - c) := by linarith
+    have hB : 0 ≤ s * (1 - c1) := mul_nonneg hs (by linarith)
+    have hsq : (s * (1 - c1)) ^ 2 < (s1 * (1 - c)) ^ 2 := by
+      apply pow_lt_pow_left₀ hA hB (by norm_num)
+    have e1 : (s * (1 - c1)) ^ 2 = (1 - c) * (1 + c) * (1 - c1) ^ 2 := by
+      have : s ^ 2 = (1 - c) * (1 + c) := by linear_combination h
+      rw [mul_pow, this]
+    have e2 : (s1 * (1 - c)) ^ 2 = (1 - c1) * (1 + c1) * (1 - c) ^ 2 := by
+      have : s1 ^ 2 = (1 - c1) * (1 + c1) := by linear_combination h1
+      rw [mul_pow, this]
+    rw [e1, e2] at hsq
+    -- (1-c)(1-c1) [ (1+c)(1-c1) - (1+c1)(1-c) ] < 0, i.e. (1-c)(1-c1) * 2 (c - c1) < 0
+    have hprod : 0 ≤ (1 - c) * (1 - c1) * (2 * (c - c1)) := by
+      apply mul_nonneg (mul_nonneg (by linarith) (by linarith)) (by linarith)
+    nlinarith
+  · intro hs
+    by_contra hcon
+    push Not at hcon
+    obtain ⟨hs1, hcc⟩ := hcon
+    -- both negative: (-s1)(1-c) < (-s)(1-c1)
+    have hA : (-s1) * (1 - c) < (-s) * (1 - c1) := by linarith
+    have hB : 0 ≤ (-s1) * (1 - c) := mul_nonneg (by linarith) (by linarith)
+    have hsq : ((-s1) * (1 - c)) ^ 2 < ((-s) * (1 - c1)) ^ 2 := by
+      apply pow_lt_pow_left₀ hA hB (by norm_num)
+    have e1 : ((-s) * (1 - c1)) ^ 2 = (1 - c) * (1 + c) * (1 - c1) ^ 2 := by
+      have : s ^ 2 = (1 - c) * (1 + c) := by linear_combination h
+      rw [mul_pow, neg_sq, this]
+    have e2 : ((-s1) * (1 - c)) ^ 2 = (1 - c1) * (1 + c1) * (1 - c) ^ 2 := by
+      have : s1 ^ 2 = (1 - c1) * (1 + c1) := by linear_combination h1
+      rw [mul_pow, neg_sq, this]
+    rw [e1, e2] at hsq
+    have hprod : 0 ≤ (1 - c) * (1 - c1) * (2 * (c1 - c)) := by
+      apply mul_nonneg (mul_nonneg (by linarith) (by linarith)) (by linarith)
+    nlinarith
+
+/-- the travel normal of three points of a circle given by their angles: orientation value. -/
+theorem orient_of_travel_normal (a1 a2 a3 n1 n2 n3 ρ2 L c s c1 s1 : K)
+    (h0 : a1 * n1 + a2 * n2 + a3 * n3 = 0) (hρ : ρ2 = a1 ^ 2 + a2 ^ 2 + a3 ^ 2)
+    (hL : L ^ 2 = n1 ^ 2 + n2 ^ 2 + n3 ^ 2) (hLpos : 0 < L)
+    (hn1 : n1 = ((a2 - (c * a2 + s * ((n3 * a1 - n1 * a3) / L))) * ((c1 * a3 + s1 * ((n1 * a2 - n2 * a1) / L)) - (c * a3 + s * ((n1 * a2 - n2 * a1) / L)))
+               - (a3 - (c * a3 + s * ((n1 * a2 - n2 * a1) / L))) * ((c1 * a2 + s1 * ((n3 * a1 - n1 * a3) / L)) - (c * a2 + s * ((n3 * a1 - n1 * a3) / L)))))
+    (hn2 : n2 = ((a3 - (c * a3 + s * ((n1 * a2 - n2 * a1) / L))) * ((c1 * a1 + s1 * ((n2 * a3 - n3 * a2) / L)) - (c * a1 + s * ((n2 * a3 - n3 * a2) / L)))
+               - (a1 - (c * a1 + s * ((n2 * a3 - n3 * a2) / L))) * ((c1 * a3 + s1 * ((n1 * a2 - n2 * a1) / L)) - (c * a3 + s * ((n1 * a2 - n2 * a1) / L)))))
+    (hn3 : n3 = ((a1 - (c * a1 + s * ((n2 * a3 - n3 * a2) / L))) * ((c1 * a2 + s1 * ((n3 * a1 - n1 * a3) / L)) - (c * a2 + s * ((n3 * a1 - n1 * a3) / L)))
+               - (a2 - (c * a2 + s * ((n3 * a1 - n1 * a3) / L))) * ((c1 * a1 + s1 * ((n2 * a3 - n3 * a2) / L)) - (c * a1 + s * ((n2 * a3 - n3 * a2) / L))))) :
+    (s1 * (1 - c) + s * (c1 - 1)) * ρ2 = L := by
+  have hL0 : L ≠ 0 := ne_of_gt hLpos
+  set κ := s1 * (1 - c) + s * (c1 - 1) with hκ
+  have key : n1 * ((a2 - (c * a2 + s * ((n3 * a1 - n1 * a3) / L))) * ((c1 * a3 + s1 * ((n1 * a2 - n2 * a1) / L)) - (c * a3 + s * ((n1 * a2 - n2 * a1) / L)))
+               - (a3 - (c * a3 + s * ((n1 * a2 - n2 * a1) / L))) * ((c1 * a2 + s1 * ((n3 * a1 - n1 * a3) / L)) - (c * a2 + s * ((n3 * a1 - n1 * a3) / L))))
+      + n2 * ((a3 - (c * a3 + s * ((n1 * a2 - n2 * a1) / L))) * ((c1 * a1 + s1 * ((n2 * a3 - n3 * a2) / L)) - (c * a1 + s * ((n2 * a3 - n3 * a2) / L)))
+               - (a1 - (c * a1 + s * ((n2 * a3 - n3 * a2) / L))) * ((c1 * a3 + s1 * ((n1 * a2 - n2 * a1) / L)) - (c * a3 + s * ((n1 * a2 - n2 * a1) / L))))
+      + n3 * ((a1 - (c * a1 + s * ((n2 * a3 - n3 * a2) / L))) * ((c1 * a2 + s1 * ((n3 * a1 - n1 * a3) / L)) - (c * a2 + s * ((n3 * a1 - n1 * a3) / L)))
+               - (a2 - (c * a2 + s * ((n3 * a1 - n1 * a3) / L))) * ((c1 * a1 + s1 * ((n2 * a3 - n3 * a2) / L)) - (c * a1 + s * ((n2 * a3 - n3 * a2) / L))))
+      = κ * ((n1 ^ 2 + n2 ^ 2 + n3 ^ 2) * (a1 ^ 2 + a2 ^ 2 + a3 ^ 2) - (a1 * n1 + a2 * n2 + a3 * n3) ^ 2) / L := by
+    rw [hκ]; field_simp; ring
+  rw [← hn1, ← hn2, ← hn3, h0, ← hL, ← hρ] at key
+  have hL2 : L ^ 2 ≠ 0 := pow_ne_zero 2 hL0
+  have e : L ^ 2 * L = L ^ 2 * (κ * ρ2) := by
+    have h2 : n1 * n1 + n2 * n2 + n3 * n3 = L ^ 2 := by rw [hL]; ring
+    rw [h2] at key
+    field_simp at key
+    linear_combination key
+  exact (mul_left_cancel₀ hL2 e).symm
+
 end Splipy.Fac
